@@ -147,7 +147,9 @@ func (vc *VC) verifyBody() {
 	if fi.Spec != nil {
 		b := vc.bindSpec(fi.Spec, recv, args, nil)
 		for _, c := range fi.Spec.Clauses {
-			if c.Kind == "requires" {
+			if c.Kind == "requires" || c.Kind == "assumes" {
+				// `assumes`: a trusted assumption about the arguments (listed in the evidence); unlike
+				// `requires` it is not an obligation at call sites
 				vc.curLabel = "req." + c.Name
 				vc.assume(st, vc.evalClause(st, fi.Spec, c.Expr, st))
 				vc.curLabel = ""
@@ -220,6 +222,21 @@ func (vc *VC) verifyBody() {
 		}
 	}
 	vc.unbind(b)
+	// object-granular frames (`touches`): only the named objects' slots of the field array change
+	if tm := vc.touchedObjects(vc.entry, fi.Spec, recv, args); len(tm) > 0 {
+		for _, h := range sortedKeys(boolKeysOf(tm)) {
+			srt, ok := vc.heapSort[h]
+			if !ok || !vc.written[h] {
+				continue
+			}
+			var ne []string
+			for _, r := range tm[h] {
+				ne = append(ne, not(eq("x?fr", r)))
+			}
+			goal := fmt.Sprintf("(forall ((x?fr Ref)) (=> %s (= (select %s x?fr) (select %s x?fr))))", and(ne...), vc.heapGet(exit, h, srt), vc.heapGet(vc.entry, h, srt))
+			vc.oblige(exit, "frame", h, fi.Decl.Pos(), goal, "only the objects named in the touches clause change in field "+h)
+		}
+	}
 	// declared frame
 	decl := vc.declaredMods(fi.Spec, recv, args)
 	hasDecl := false
@@ -447,7 +464,7 @@ func dischargeAll(results []*FuncResult, timeout time.Duration, workdir string, 
 				sub := *l.src
 				sub.Goal = l.goal
 				r := solve(l.src.vc.query(&sub, true), timeout, workdir, l.tag, true)
-				if r.Status != "unsat" && r.Status != "sat" {
+				if r.Status != "unsat" && r.Status != "sat" && l.src.vc.oracle == nil {
 					if cr, ok := caseSplit(l.src.vc, &sub, timeout, workdir, l.tag); ok {
 						r = cr
 					}
@@ -810,4 +827,12 @@ func caseSplit(vc *VC, o *Obligation, timeout time.Duration, workdir, tag string
 			All: map[string]string{"split": c}}, true
 	}
 	return SolveResult{}, false
+}
+
+func boolKeysOf(m map[string][]string) map[string]bool {
+	o := map[string]bool{}
+	for k := range m {
+		o[k] = true
+	}
+	return o
 }
